@@ -570,6 +570,14 @@ def brute_force(truth, admitted, par, exhaustive=True):
         opt_out[S] = 'amb'
       else:
         opt_out[S] = 'in'
+  if sr is not None:
+    # a sub-group that (clearly) fails the treatment share range is not an admissible treatment group: its budget
+    # never licenses the omission of a larger group
+    def share_admissible(S):
+      s = truth.share_of(S)
+      tol = RTOL * max(s, sr[1])
+      return not (s > sr[1] + tol or s < sr[0] - tol)
+    opt_out = {S: v for S, v in opt_out.items() if share_admissible(S)}
   out_sets = [set(S) for S, v in opt_out.items() if v != 'in']
   feasible = []
   unscorable = []
